@@ -9,12 +9,24 @@ import (
 func init() { register("C03", propC03) }
 
 func propC03(c *Ctx) {
-	c.Explanation = "Decides admission and reset construction as dominance / def-use facts for all inputs: (H1) endpoints are sent on acceptedChan only by deliverAccepted (and Listen's re-queue of already admitted ones); (H2) deliverAccepted is called only after createEndpointAndPerformHandshake returned nil error - whose success return is dominated by handshake.execute()==nil - or, in SYN-cookie mode, only for a segment whose flags are exactly ACK, whose cookie validates and decodes to an MSS index inside the table, after createConnectedEndpoint succeeded, with iss = ack-1 and irs = seq-1; (H3) handshake.state becomes Completed only under checkAck==true, with ACK set (SYN-RCVD) or SYN and ACK set (SYN-SENT); (H4) checkAck's complete decision table over {ACK set, ack == iss+1} is !(ACK && ack != iss+1), and on the false result exactly one RST|ACK is sent whose sequence number is the offending acknowledgement number; (H5) replyWithReset sends RST|ACK with seq = the segment's ack number (0 without ACK) and ack = seq+logical length; HandleUnknownDestinationPacket replies exactly once and never to a RST; (H6) the listener dispatches on the whole flag byte (== SYN, == ACK), not on a mask; (H7) the SYN-cookie pipeline keeps 32 bits end to end: no lossy integer narrowing in encodeMSS/createCookie/isCookieValid and the validated data is compared as decoded. (H8) the length used for a reset's ACK number counts SYN and FIN separately (shared path table of logicalLen); H3 also tables the initial handshake states (resetState, resetToSynRcvd). (H9) isRegistered follows every registration before the registering function can return and is cleared with Close's inline unregistration (shared with C09/D8). (H10) the half-open connection counter: increment and admission exactly below the threshold, decrement on completion. (H11) no examined callee error ends in a nil return in package tcp except four reviewed conversions; H3 also tables handshake.handleSegment, H1 Accept. NOT decided: strength of the cookie hash, behaviour over sequences of handshake segments, cookie expiry timing."
+	c.Explanation = "Decides admission and reset construction as dominance / def-use facts for all inputs: (H1) endpoints are sent on acceptedChan only by deliverAccepted (and Listen's re-queue of already admitted ones); (H2) deliverAccepted is called only after createEndpointAndPerformHandshake returned nil error - whose success return is dominated by handshake.execute()==nil - or, in SYN-cookie mode, only for a segment whose flags are exactly ACK, whose cookie validates and decodes to an MSS index inside the table, after createConnectedEndpoint succeeded, with iss = ack-1 and irs = seq-1; (H3) handshake.state becomes Completed only under checkAck==true, with ACK set (SYN-RCVD) or SYN and ACK set (SYN-SENT); (H4) checkAck's complete decision table over {ACK set, ack == iss+1} is !(ACK && ack != iss+1), and on the false result exactly one RST|ACK is sent whose sequence number is the offending acknowledgement number; (H5) replyWithReset sends RST|ACK with seq = the segment's ack number (0 without ACK) and ack = seq+logical length; HandleUnknownDestinationPacket replies exactly once and never to a RST; (H6) the listener dispatches on the whole flag byte (== SYN, == ACK), not on a mask; (H7) the SYN-cookie pipeline keeps 32 bits end to end: no lossy integer narrowing in encodeMSS/createCookie/isCookieValid and the validated data is compared as decoded. (H8) the length used for a reset's ACK number counts SYN and FIN separately (shared path table of logicalLen); H3 also tables the initial handshake states (resetState, resetToSynRcvd). (H9) isRegistered follows every registration before the registering function can return and is cleared with Close's inline unregistration (shared with C09/D8). (H10) the half-open connection counter: increment and admission exactly below the threshold, decrement on completion. (H11) no examined callee error ends in a nil return in package tcp except four reviewed conversions; H3 also tables handshake.handleSegment, H1 Accept. (H12) every input of the SYN-cookie hash - both ports, both addresses, time bucket, nonce - reaches the hasher; (H13) the TCP header fields the handshake decides on are read from exactly the RFC 793 bits (bit-provenance, shared with C15/B1). (H14) the listener's stateless answers: over the half-open limit a SYN is answered with the cookie as sequence number acknowledging seq+1 without window scaling, and the options of a cookie connection come from the validated cookie and the ACK's timestamp option; (H15) what the handshake state machine sends and negotiates in SYN-SENT and SYN-RCVD, and that the half-open slot and the SYN's reference are given back; (H16) unaccepted connections are reset and closed at teardown, an active open takes its identity from the route found; (H17) the handshake accepts an ACK exactly when it acknowledges iss+1. (H18) a handshake endpoint that loses a registration conflict rolls back exactly the protocols it registered, never the winner's entry (shared with C09/D2). NOT decided: strength of the cookie hash, behaviour over sequences of handshake segments, cookie expiry timing."
 	hs := "(*tcp.handshake)."
 	ep := "(*tcp.endpoint)."
 	rst, ack, syn := "(*tcp.segment).flagIsSet($1, 4)", "(*tcp.segment).flagIsSet($1, 16)", "(*tcp.segment).flagIsSet($1, 2)"
 	chk := hs + "checkAck($0, $1)"
 
+	h13 := c.Rule("H13", "K9 bitprov (shared with C15/B1)", "the TCP flags, sequence and acknowledgement numbers the handshake decides on are read from exactly the RFC 793 bits", 5)
+	c.fieldAccessorLayouts(h13, &bitprov{p: c.P}, func(f fieldLayout) bool {
+		return f.Typ == "TCP" && (f.Field == "Flags" || f.Field == "SequenceNumber" || f.Field == "AckNumber" || f.Field == "DataOffset" || f.Field == "Window")
+	})
+	// H14, H15: effects of tabled functions no row mentioned (effects.go)
+	listenCookieRule(c, c.Rule("H14", "K7 exact-guard site table", "the listener's stateless answers: cookie SYN|ACK over the limit; options of a cookie connection come from the cookie and the ACK", 8))
+	handshakeReplyRule(c, c.Rule("H15", "K7 exact-guard site tables", "what the handshake state machine sends and negotiates in SYN-SENT / SYN-RCVD; the half-open slot and the SYN's reference are given back", 9))
+	h16 := c.Rule("H16", "K7 site tables (shared with C09/D12)", "unaccepted connections are reset and closed at teardown; an active open takes its identity from the route found and the address asked for", 10)
+	tcpTeardownRule(c, h16)
+	tcpConnectIdentityRule(c, h16)
+	handshakeAckTestRule(c, c.Rule("H17", "K7 closed return table", "the handshake accepts an ACK exactly when it acknowledges iss+1", 2))
+	demuxRegistrationRule(c, c.Rule("H18", "K1/K5 site tables (shared with C09/D2)", "a handshake endpoint that loses a registration conflict does not remove the winner: the roll-back covers exactly the protocols it registered", 4))
 	h1 := c.Rule("H1", "K3 confinement", "acceptedChan is fed only by deliverAccepted", 1)
 	var sends []ssa.Instruction
 	for _, fn := range c.P.Funcs {
@@ -219,6 +231,20 @@ func propC03(c *Ctx) {
 		}
 	}
 	c.Check(nSw >= 4, h11, "tcp/reviewed-conversions-seen", "protocol/transport/tcp", "the search sees the reviewed conversion sites", "the search no longer sees the reviewed sites: it went blind")
+
+	h12 := c.Rule("H12", "K5 site table", "the SYN cookie is bound to the whole 4-tuple, the timestamp and the secret", 7)
+	if fn := c.Fn(h12, "(*tcp.listenContext).cookieHash"); fn != nil {
+		be := "encoding/binary.BigEndian"
+		c.CheckSitesPresent(h12, fn, []SiteSpec{
+			{Kind: "call", Target: "encoding/binary.bigEndian.PutUint16", Args: []string{be, "new([8]byte)[0:]", "$1.LocalPort"}, Guards: []string{}, Exact: true, N: 1, Why: "the local port enters the hash"},
+			{Kind: "call", Target: "encoding/binary.bigEndian.PutUint16", Args: []string{be, "new([8]byte)[2:]", "$1.RemotePort"}, Guards: []string{}, Exact: true, N: 1, Why: "the REMOTE port enters the hash: a cookie issued to one source port does not validate from another"},
+			{Kind: "call", Target: "encoding/binary.bigEndian.PutUint32", Args: []string{be, "new([8]byte)[4:]", "$2"}, Guards: []string{}, Exact: true, N: 1, Why: "the timestamp enters the hash"},
+			{Kind: "call", Target: "iface:io.Writer.Write", Args: []string{"$0.hasher", "$0.nonce[$3][:]"}, Guards: []string{}, Exact: true, N: 1, Why: "the secret (selected nonce) enters the hash"},
+			{Kind: "call", Target: "io.WriteString", Args: []string{"$0.hasher", "$1.LocalAddress"}, Guards: []string{}, Exact: true, N: 1, Why: "the local address enters the hash"},
+			{Kind: "call", Target: "io.WriteString", Args: []string{"$0.hasher", "$1.RemoteAddress"}, Guards: []string{}, Exact: true, N: 1, Why: "the remote address enters the hash"},
+			{Kind: "return", Args: []string{"encoding/binary.bigEndian.Uint32(" + be + ", iface:hash.Hash.Sum($0.hasher, new([20]byte)[:0])[:])"}, Guards: []string{}, Exact: true, N: 1, Why: "the cookie is the first 32 bits of the digest of exactly those writes"},
+		})
+	}
 
 	h10 := c.Rule("H10", "K9 site tables (closed, exact guards)", "the half-open connection counter that switches the listener to SYN cookies", 4)
 	if fn := c.Fn(h10, "tcp.incSynRcvdCount"); fn != nil {
